@@ -488,4 +488,149 @@ theorem nth_var_general {base : Int} {v : Nat} {es : List Term} {elem : Term}
           simp only [Term.int.injEq, Int.ofNat_eq_natCast] at h1
           omega
 
+/-! ### SLD resolution is complete -/
+
+/-- the goals can all be resolved, left to right, in `n` steps by instances of the clauses -/
+inductive Resolves (clauses : List Clause) : Nat → List Term → Prop
+  | nil (n : Nat) : Resolves clauses n []
+  | step {n : Nat} {g : Term} {gs : List Term} (c : Clause) (hc : c ∈ clauses) (ρ : Nat → Term)
+      (hg : g = substT ρ c.1) (h : Resolves clauses n (c.2.map (substT ρ) ++ gs)) :
+      Resolves clauses (n + 1) (g :: gs)
+
+theorem Resolves.mono {clauses : List Clause} {n m : Nat} {gs : List Term} (h : Resolves clauses n gs)
+    (hnm : n ≤ m) : Resolves clauses m gs := by
+  induction h generalizing m with
+  | nil n => exact Resolves.nil m
+  | step c hc ρ hg _ ih =>
+    cases m with
+    | zero => omega
+    | succ m => exact Resolves.step c hc ρ hg (ih (by omega))
+
+/-- every unification performed by the run of the engine finished within its fuel -/
+def SldDefined (clauses : List Clause) : Nat → List Term → List Term → Prop
+  | 0, _, _ => True
+  | _ + 1, [], _ => True
+  | f + 1, g :: gs, args =>
+    ∀ c ∈ clauses,
+      UnifyDefined g (substT (shift (boundL (g :: gs ++ args))) c.1) ∧
+      ∀ δ, unifyM g (substT (shift (boundL (g :: gs ++ args))) c.1) = some δ →
+        SldDefined clauses f ((c.2.map (substT (shift (boundL (g :: gs ++ args)))) ++ gs).map (substT δ))
+          (args.map (substT δ))
+
+theorem substT_agree_below {σ σ' : Nat → Term} {n : Nat} (h : ∀ v, v < n → σ' v = σ v) (t : Term)
+    (ht : boundT t ≤ n) : substT σ' t = substT σ t := by
+  apply substT_congr
+  intro v hv
+  exact h v (Nat.lt_of_lt_of_le (occursT_lt_bound v t hv) ht)
+
+/-- lifting: if the σ-instances of the goals can be resolved in fewer than `f` steps, the engine
+    finds an answer of which the σ-instance of the call is an instance -/
+theorem sld_complete {clauses : List Clause} :
+    (f : Nat) → (goals args : List Term) → (σ : Nat → Term) → (n : Nat) →
+    Resolves clauses n (goals.map (substT σ)) → n < f → SldDefined clauses f goals args →
+    ∃ a ∈ sld clauses f goals args, IsInstance a (args.map (substT σ))
+  | 0, _, _, _, _, _, h, _ => by omega
+  | f + 1, [], args, σ, _, _, _, _ => ⟨args, by simp [sld], ⟨σ, rfl⟩⟩
+  | f + 1, g :: gs, args, σ, n, hres, hn, hdef => by
+    cases hres with
+    | step c hc ρ hg hrest =>
+      rename_i n'
+      generalize hnext : boundL (g :: gs ++ args) = next at *
+      -- σ extended to the renamed clause
+      let σ' : Nat → Term := fun v => if v < next then σ v else ρ (v - next)
+      have hlow : ∀ t, boundT t ≤ next → substT σ' t = substT σ t :=
+        fun t ht => substT_agree_below (fun v hv => by simp [σ', hv]) t ht
+      have hshift : ∀ u, substT σ' (substT (shift next) u) = substT ρ u := by
+        intro u
+        rw [substT_comp]
+        apply substT_congr
+        intro v _
+        have : ¬ (v + next < next) := by omega
+        simp [shift, substT, σ', this]
+      have hbound : ∀ t ∈ g :: gs ++ args, boundT t ≤ next := fun t ht => hnext ▸ boundT_le_boundL ht
+      have hunif : substT σ' g = substT σ' (substT (shift next) c.1) := by
+        rw [hlow g (hbound g (by simp)), hshift]; exact hg
+      simp only [SldDefined] at hdef
+      obtain ⟨hd, hdrec⟩ := hdef c hc
+      rw [hnext] at hd hdrec
+      obtain ⟨k1, k2⟩ := unifyM_mgu hd
+      cases hm : unifyM g (substT (shift next) c.1) with
+      | none => exact absurd hunif (k2 hm σ')
+      | some δ =>
+        obtain ⟨_, habs⟩ := k1 δ hm
+        have habs' := habs σ' hunif
+        have hgoals : ((c.2.map (substT (shift next)) ++ gs).map (substT δ)).map (substT σ') =
+            c.2.map (substT ρ) ++ gs.map (substT σ) := by
+          simp only [List.map_map, List.map_append, Function.comp_def, habs', hshift]
+          congr 1
+          apply List.map_congr_left
+          intro t ht
+          exact hlow t (hbound t (by simp [ht]))
+        obtain ⟨a, ha, hinst⟩ := sld_complete f _ (args.map (substT δ)) σ' n'
+          (by rw [hgoals]; exact hrest) (by omega) (hdrec δ hm)
+        refine ⟨a, ?_, ?_⟩
+        · simp only [sld, List.mem_flatMap]
+          refine ⟨c, hc, ?_⟩
+          rw [hnext, hm]
+          exact ha
+        · have : (args.map (substT δ)).map (substT σ') = args.map (substT σ) := by
+            simp only [List.map_map, Function.comp_def, habs']
+            apply List.map_congr_left
+            intro t ht
+            exact hlow t (hbound t (by simp [ht]))
+          rw [this] at hinst
+          exact hinst
+
+/-- substitution given by the first values, identity elsewhere -/
+def assignList (ts : List Term) : Nat → Term := fun v => match ts[v]? with | some t => t | none => .var v
+
+theorem resolves_member (y : Term) (tl : Term) : (ys : List Term) → y ∈ ys →
+    Resolves memberClauses ys.length [Term.a2 "member" y (Term.list ys tl)]
+  | [], h => by cases h
+  | z :: rest, h => by
+    by_cases hyz : y = z
+    · subst hyz
+      refine Resolves.mono (Resolves.step (n := 0) memberClauses[0] (by simp [memberClauses])
+        (assignList [y, Term.list rest tl]) ?_ (Resolves.nil 0)) (by simp)
+      simp [memberClauses, Term.a2, Term.consT, substT, substA, assignList]
+    · have hy : y ∈ rest := by
+        rcases List.mem_cons.mp h with h | h
+        · exact absurd h hyz
+        · exact h
+      refine Resolves.step memberClauses[1] (by simp [memberClauses])
+        (assignList [y, z, Term.list rest tl]) ?_ ?_
+      · simp [memberClauses, Term.a2, Term.consT, substT, substA, assignList]
+      · have := resolves_member y tl rest hy
+        simpa [memberClauses, Term.a2, substT, substA, assignList] using this
+
+theorem resolves_select (e : Term) (tl : Term) : (ys : List Term) → (i : Nat) → ys[i]? = some e →
+    Resolves selectClauses (i + 1)
+      [Term.a3 "select" e (Term.list ys tl) (Term.list (ys.eraseIdx i) tl)]
+  | [], i, h => by simp at h
+  | z :: rest, 0, h => by
+    simp only [List.getElem?_cons_zero, Option.some.injEq] at h
+    subst h
+    refine Resolves.step selectClauses[0] (by simp [selectClauses])
+      (assignList [z, Term.list rest tl]) ?_ (Resolves.nil 0)
+    simp [selectClauses, Term.a3, Term.consT, substT, substA, assignList]
+  | z :: rest, i + 1, h => by
+    simp only [List.getElem?_cons_succ] at h
+    refine Resolves.step selectClauses[1] (by simp [selectClauses])
+      (assignList [e, z, Term.list rest tl, Term.list (rest.eraseIdx i) tl]) ?_ ?_
+    · simp [selectClauses, Term.a3, Term.consT, substT, substA, assignList]
+    · have := resolves_select e tl rest i h
+      simpa [selectClauses, Term.a3, substT, substA, assignList] using this
+
+theorem resolves_append (y : Term) : (xs : List Term) →
+    Resolves appendClausePairs (xs.length + 1) [Term.a3 "append" (Term.list xs) y (Term.list xs y)]
+  | [] => by
+    refine Resolves.step appendClausePairs[0] (by simp [appendClausePairs]) (assignList [y]) ?_ (Resolves.nil 0)
+    simp [appendClausePairs, Term.a3, substT, substA, assignList, Term.nilT]
+  | a :: rest => by
+    refine Resolves.step appendClausePairs[1] (by simp [appendClausePairs])
+      (assignList [a, Term.list rest, y, Term.list rest y]) ?_ ?_
+    · simp [appendClausePairs, Term.a3, Term.consT, substT, substA, assignList]
+    · have := resolves_append y rest
+      simpa [appendClausePairs, Term.a3, substT, substA, assignList] using this
+
 end PrologVerif.Rel
